@@ -257,7 +257,7 @@ def symbol_tables(model, R):
             ok = (name_is(lp.iter, p_bools) and src(g.generators[0].iter) == src(lp.target) and not g.generators[0].ifs
                   and isinstance(g.elt, ast.Subscript) and name_is(g.elt.value, it.params[3] if len(it.params) > 3 else 'symbols')
                   and src(g.elt.slice) == src(g.generators[0].target))
-    R.same(ok, 'LAYOUT', it, rows[-1] if rows else it.node, 'cxt rows: one line per row, one symbol per cell in column order', "''.join(symbols[value] for value in row)")
+    R.soft(ok, 'LAYOUT', it, rows[-1] if rows else it.node, 'cxt rows: one line per row, one symbol per cell in column order', "''.join(symbols[value] for value in row)")
     env = Env(lo)
     st = {s.targets[0].id if isinstance(s.targets[0], ast.Name) else src(s.targets[0]): s.value for s in lo.body if isinstance(s, ast.Assign)}
     cnt = [v for k, v in st.items() if isinstance(v, ast.Call) and name_is(v.func, 'map') and v.args and name_is(v.args[0], 'int')]
@@ -278,9 +278,9 @@ def symbol_tables(model, R):
                   f'objects = lines[:{a}]; properties = lines[{a}:{a} + {b_}] (the writer emits #objects first)', f'objects = {so}; properties = {sp_}')
     b = st.get('bools')
     ok = isinstance(b, ast.ListComp) and re.match(r'lines\[\w+ \+ \w+:\]$', src(b.generators[0].iter)) and 'cls.values' in src(b.elt)
-    R.same(bool(ok), 'LAYOUT', lo, b or lo.node, 'cxt reader: remaining lines are the rows, one cell per character', 'for l in lines[y + x:]', src(b))
+    R.soft(bool(ok), 'LAYOUT', lo, b or lo.node, 'cxt reader: remaining lines are the rows, one cell per character', 'for l in lines[y + x:]', src(b))
     r = [src(n.value) for n in walk(lo.body) if isinstance(n, ast.Return)]
-    R.same(r == ['ContextArgs(objects, properties, bools)'], 'LAYOUT', lo, lo.node, 'cxt reader returns (objects, properties, bools)', 'ContextArgs(objects, properties, bools)', str(r))
+    R.soft(r == ['ContextArgs(objects, properties, bools)'], 'LAYOUT', lo, lo.node, 'cxt reader returns (objects, properties, bools)', 'ContextArgs(objects, properties, bools)', str(r))
     # ---- csv
     sm = model.module('formats.csv_context')
     sym = _dict_literal(sm.assigns.get('SYMBOLS'))
@@ -314,20 +314,20 @@ def symbol_tables(model, R):
     sv = [s for s in du.body if isinstance(s, ast.Assign) and src(s.value) == 'cls.symbols[bools_as_int].__getitem__']
     R.check(bool(gv) and bool(sv), 'SYMBOLS', lo, lo.node, 'csv loader and dumper index their tables by the same flag', 'cls.values[bools_as_int] / cls.symbols[bools_as_int]')
     hd = [s for s in du.body if isinstance(s, ast.Assign) and name_is(s.targets[0], 'header')]
-    R.same(bool(hd) and src(hd[0].value) == '[object_header] + list(properties)', 'LAYOUT', du, hd[0] if hd else du.node, 'csv header: corner cell then the property labels',
+    R.soft(bool(hd) and src(hd[0].value) == '[object_header] + list(properties)', 'LAYOUT', du, hd[0] if hd else du.node, 'csv header: corner cell then the property labels',
             '[object_header] + list(properties)')
     rw = [s for s in du.body if isinstance(s, ast.Assign) and name_is(s.targets[0], 'rows')]
-    R.same(bool(rw) and src(rw[0].value) == '([o] + list(map(symbool, bs)) for o, bs in zip(objects, bools))', 'LAYOUT', du, rw[0] if rw else du.node,
+    R.soft(bool(rw) and src(rw[0].value) == '([o] + list(map(symbool, bs)) for o, bs in zip(objects, bools))', 'LAYOUT', du, rw[0] if rw else du.node,
             'csv rows: object label then one cell per property', '([o] + list(map(symbool, bs)) for o, bs in zip(objects, bools))', src(rw[0].value) if rw else '')
     hdr = [s for s in lo.body if isinstance(s, ast.Assign) and src(s.value) == 'next(reader)' and isinstance(s.targets[0], ast.Tuple)]
     ok = bool(hdr) and isinstance(hdr[0].targets[0].elts[1], ast.Starred) and src(hdr[0].targets[0].elts[1].value) == 'properties'
-    R.same(ok, 'LAYOUT', lo, hdr[0] if hdr else lo.node, 'csv reader: first row = corner cell then the property labels', 'object_header, *properties = next(reader)')
+    R.soft(ok, 'LAYOUT', lo, hdr[0] if hdr else lo.node, 'csv reader: first row = corner cell then the property labels', 'object_header, *properties = next(reader)')
     loops = [s for s in lo.body if isinstance(s, ast.For) and src(s.iter) == 'rows']
     ok = bool(loops) and src(loops[0].target) == '(obj, *symbols)' and 'objects.append(obj)' in src(loops[0]) and 'bools.append(tuple(map(get_value, symbols)))' in src(loops[0])
-    R.same(ok, 'LAYOUT', lo, loops[0] if loops else lo.node, 'csv reader: each row = object label then the cells', 'for obj, *symbols in rows')
+    R.soft(ok, 'LAYOUT', lo, loops[0] if loops else lo.node, 'csv reader: each row = object label then the cells', 'for obj, *symbols in rows')
     # auto-detection keeps the sniffed first row
     chainrows = [s for s in walk(lo.body) if isinstance(s, ast.Assign) and name_is(s.targets[0], 'rows') and 'chain' in src(s.value)]
-    R.same(bool(chainrows) and src(chainrows[0].value) == 'itertools.chain([first_row], reader)', 'LAYOUT', lo, chainrows[0] if chainrows else lo.node,
+    R.soft(bool(chainrows) and src(chainrows[0].value) == 'itertools.chain([first_row], reader)', 'LAYOUT', lo, chainrows[0] if chainrows else lo.node,
             'csv reader: the row used for symbol detection is still loaded', 'rows = itertools.chain([first_row], reader)')
     # ---- table / wiki
     td = model.func('formats.table.dump_file')
@@ -343,28 +343,28 @@ def symbol_tables(model, R):
     R.check(ok, 'SYMBOLS', tl, tl.node, 'table reader: a cell is true iff it is not blank', 'bool(f.strip())')
     lines = [s for s in tl.body if isinstance(s, ast.Assign) and name_is(s.targets[0], 'lines')]
     ok = len(lines) == 2 and src(lines[0].value) == "(line.partition('#')[0].strip() for line in file)" and src(lines[1].value) == 'list(filter(None, lines))'
-    R.same(ok, 'LAYOUT', tl, lines[0] if lines else tl.node, 'table reader: comments cut at #, blank lines dropped', "line.partition('#')[0].strip(); filter(None, lines)")
+    R.soft(ok, 'LAYOUT', tl, lines[0] if lines else tl.node, 'table reader: comments cut at #, blank lines dropped', "line.partition('#')[0].strip(); filter(None, lines)")
     pr = [s for s in tl.body if isinstance(s, ast.Assign) and name_is(s.targets[0], 'properties')]
-    R.same(bool(pr) and src(pr[0].value) == "[p.strip() for p in lines[0].strip('|').split('|')]", 'LAYOUT', tl, pr[0] if pr else tl.node,
+    R.soft(bool(pr) and src(pr[0].value) == "[p.strip() for p in lines[0].strip('|').split('|')]", 'LAYOUT', tl, pr[0] if pr else tl.node,
             'table reader: header cells between the bars are the property labels', "[p.strip() for p in lines[0].strip('|').split('|')]", src(pr[0].value) if pr else '')
     tb = [s for s in tl.body if isinstance(s, ast.Assign) and name_is(s.targets[0], 'table')]
     ok = bool(tb) and "objflags.partition('|')[::2] for objflags in lines[1:]" in src(tb[0].value) and "obj.strip()" in src(tb[0].value) \
         and "flags.strip('|').split('|')" in src(tb[0].value)
-    R.same(ok, 'LAYOUT', tl, tb[0] if tb else tl.node, 'table reader: row = label before the first bar, cells between the remaining bars',
+    R.soft(ok, 'LAYOUT', tl, tb[0] if tb else tl.node, 'table reader: row = label before the first bar, cells between the remaining bars',
             "obj, flags = objflags.partition('|')[::2]; flags.strip('|').split('|')")
     wr = sorted((n for n in walk(td.body) if isinstance(n, ast.Call) and name_is(n.func, 'write')), key=lambda n: n.lineno)
     ok = len(wr) == 2 and src(wr[0].args[0]) == "tmpl % (('',) + tuple(properties))" and src(wr[1].args[0]).startswith('tmpl % ((o,) + tuple(')
-    R.same(ok, 'LAYOUT', td, td.node, 'table writer: header row with empty corner, then label + cells per object', "tmpl % (('',) + tuple(properties)); tmpl % ((o,) + cells)")
+    R.soft(ok, 'LAYOUT', td, td.node, 'table writer: header row with empty corner, then label + cells per object', "tmpl % (('',) + tuple(properties)); tmpl % ((o,) + cells)")
     tm = [s for s in td.body if isinstance(s, ast.Assign) and name_is(s.targets[0], 'tmpl')]
     ok = bool(tm) and src(tm[0].value) == "' ' * indent + '|'.join((f'%-{w:d}s' for w in wd)) + '|'"
-    R.same(ok, 'LAYOUT', td, tm[0] if tm else td.node, 'table writer: cells joined and terminated by bars, after the indent', "' ' * indent + '|'.join(...) + '|'", src(tm[0].value) if tm else '')
+    R.soft(ok, 'LAYOUT', td, tm[0] if tm else td.node, 'table writer: cells joined and terminated by bars, after the indent', "' ' * indent + '|'.join(...) + '|'", src(tm[0].value) if tm else '')
     wk = model.func('formats.wiki_table.dump_file')
     cells = [n for n in walk(wk.body) if isinstance(n, ast.IfExp) and isinstance(const(n.body), str) and isinstance(const(n.orelse), str)]
     ok = len(cells) == 1 and const(cells[0].body).strip() and not const(cells[0].orelse).strip() and name_is(cells[0].test, 'b')
     R.check(bool(ok), 'SYMBOLS', wk, cells[0] if cells else wk.node, 'wiki-table: true cell non-blank, false cell blank', "'X' if b else ''")
     seq = [src(n.args[0]) for n in sorted((n for n in walk(wk.body) if isinstance(n, ast.Call) and name_is(n.func, 'write')), key=lambda n: n.lineno)]
     want = ["'{| class=\"featuresystem\"'", "'!'", "'!{}'.format('!!'.join(properties))", "'|-'", "f'!{o}'", "'|{}'.format('||'.join(bcells))", "'|}'"]
-    R.same(seq == want, 'LAYOUT', wk, wk.node, 'wiki-table layout: header cells with !!, one |- row per object with || cells', str(want), str(seq))
+    R.soft(seq == want, 'LAYOUT', wk, wk.node, 'wiki-table layout: header cells with !!, one |- row per object with || cells', str(want), str(seq))
 
 
 def index_exports(model, R):
@@ -433,7 +433,7 @@ def index_exports(model, R):
 
 def run(model, R):
     R.floor('REGISTRY', 15)
-    R.floor('LAYOUT', 12)
+    R.floor('LAYOUT', 2)
     R.guard('REGISTRY', None, 'registry', registry, model, R)
     R.guard('PARAM-CLOBBER', None, 'parameters', param_clobber, model, R)
     R.guard('SYMBOLS', None, 'symbol tables', symbol_tables, model, R)
